@@ -21,11 +21,11 @@ def cut_sections(b):
     return out
 
 
-def verdict(src, level):
+def verdict(src, level, debug=False):
     """-> ({'ok':..}, module bytes | None).  Exceptions that are not the
     compiler's own diagnostics are part of the verdict (kind 'internal')."""
     try:
-        code = compile_src(src, level, False)
+        code = compile_src(src, level, debug)
         return {'ok': True}, bytes(code)
     except QSyntaxError as e:
         return {'ok': False, 'kind': 'syntax', 'msg': str(getattr(e, 'msg', ''))[:80]}, None
@@ -61,14 +61,14 @@ def trace(b, script, max_ticks):
 
 
 def compare(case):
-    """{a, b, levels, script?, max_ticks?, want_trace?}: compile both texts at
-    each level.  Result per level: verdict keys, names of differing sections,
+    """{a, b, levels, script?, max_ticks?, want_trace?, debug?}: compile both texts at
+    each level (with debug info when debug is set: RESUME needs the statement map).  Result per level: verdict keys, names of differing sections,
     and - when sections differ (or want_trace) and both compiled - whether the
     traces agree."""
     out = []
     for level in case.get('levels', [0, 2]):
-        va, ba = verdict(case['a'], level)
-        vb, bb = verdict(case['b'], level)
+        va, ba = verdict(case['a'], level, bool(case.get('debug')))
+        vb, bb = verdict(case['b'], level, bool(case.get('debug')))
         r = {'level': level, 'va': vkey(va), 'vb': vkey(vb), 'diff': [], 'trace_same': None}
         if va['ok'] and vb['ok']:
             sa, sb = cut_sections(ba), cut_sections(bb)
